@@ -27,7 +27,7 @@ func init() { Register(checkC08{}) }
 func (checkC08) ID() string    { return "C08" }
 func (checkC08) Level() string { return "exploration" }
 func (checkC08) Rule() string {
-	return "worlds drawn from the seed: honest miners/stakers/users plus an attacker actor writing to all three chains (entries with 0..n external ids of any size, arbitrary content, bit-flipped copies, duplicates of entries of every fate in the same / next / later blocks, wrong-era records); distinct = distinct (adversarial entry kind, chain, fate of the block) ; non-trivial = the block containing the adversarial entry was reached by the daemon"
+	return "worlds drawn from the seed: honest miners/stakers/users plus an attacker actor writing to all three chains (entries with 0..n external ids of any size, arbitrary content, bit-flipped copies, duplicates of entries of every fate in the same / next / later blocks, wrong-era records) and third parties writing valid entries of unusual shapes (amounts at the edges of the funds checks, batches mixing PEG requests with transfers, conversions into every category, burn-address traffic); distinct = distinct (adversarial entry kind, chain, fate of the block) ; non-trivial = the block containing the adversarial entry was reached by the daemon"
 }
 
 var junkContents = []string{"", "00", "7b7d", "5b5d", "6e756c6c", "7b2276657273696f6e223a317d",
@@ -107,9 +107,20 @@ func (checkC08) Gen(seed uint64, tier string) (*Scenario, error) {
 	p.PBadOPR = 0.4
 	p.PSPRBad = 0.4
 	g := world.NewGen(seed, p)
+	// third parties also write *valid* entries of unusual shapes: the actors of
+	// the refinement checks (amounts at the edges of the funds checks, PEG
+	// requests, conversions into every category, burn-address traffic)
+	acts := []func(uint32, *world.BlockSpec){exactBatches(rng, g), pegRequests(rng, g), conversionMatrix(rng, g), burnAddressTraffic(rng, g)}
 	for i := 0; i < p.Blocks; i++ {
 		bi := i
-		if _, err := g.Step(func(h uint32, bs *world.BlockSpec) { attacker(rng, g, h, bs, bi, 0.45, true) }); err != nil {
+		if _, err := g.Step(func(h uint32, bs *world.BlockSpec) {
+			attacker(rng, g, h, bs, bi, 0.45, true)
+			for _, a := range acts {
+				if rng.Intn(2) == 0 {
+					a(h, bs)
+				}
+			}
+		}); err != nil {
 			return nil, err
 		}
 	}
